@@ -200,8 +200,8 @@ func findSites(b []byte) ([]site, error) {
 	return w.sites, w.err
 }
 
-// respell returns the alternative spellings of site s: every wider var-int
-// form of the same value, or the uncompressed form of the same curve point.
+// respell returns the alternative spellings of site s: every other var-int
+// form that can hold the same value, or the uncompressed form of the same curve point.
 func respell(b []byte, s site, widths []int) (out [][]byte, names []string) {
 	splice := func(alt []byte) []byte {
 		r := make([]byte, 0, len(b)+len(alt))
@@ -217,11 +217,13 @@ func respell(b []byte, s site, widths []int) (out [][]byte, names []string) {
 		return [][]byte{splice(pk.UncompressedBytes())}, []string{"uncompressed"}
 	}
 	for _, wd := range widths {
-		if wd <= s.Len {
+		if wd == s.Len || (wd == 1 && s.Val >= 0xfd) || (wd == 3 && s.Val > 0xffff) || (wd == 5 && s.Val > 0xffffffff) {
 			continue
 		}
 		alt := make([]byte, wd)
 		switch wd {
+		case 1:
+			alt[0] = byte(s.Val)
 		case 3:
 			alt[0] = 0xfd
 			binary.LittleEndian.PutUint16(alt[1:], uint16(s.Val))
@@ -233,7 +235,7 @@ func respell(b []byte, s site, widths []int) (out [][]byte, names []string) {
 			binary.LittleEndian.PutUint64(alt[1:], s.Val)
 		}
 		out = append(out, splice(alt))
-		names = append(names, fmt.Sprintf("%02x-form", alt[0]))
+		names = append(names, fmt.Sprintf("%d-byte-form", wd))
 	}
 	return
 }
